@@ -18,8 +18,42 @@ ODD = ['\t', '\x00', '\x01', '\x07', '\x08', '\x0b', '\x0c', '\x1b', '\x1f', '\x
        chr(0x1F600), chr(0x10ffff), BOM, LS, PS, chr(0xe9), chr(0x263a), chr(0x3b1)]
 SURROGATES = [chr(0xd800), chr(0xdbff), chr(0xdc00), chr(0xdfff)]
 
+# characters Python calls white space / line boundaries but YAML does not (str.isspace, str.splitlines, str.strip)
+PYSPACE = [NBSP, chr(0x1680), chr(0x2000), chr(0x2003), chr(0x2009), chr(0x200a), chr(0x202f), chr(0x205f), chr(0x3000),
+           '\x0b', '\x0c', '\x1c', '\x1d', '\x1e', '\x1f', chr(0x200b)]
 CLASSES = ['lookalike', 'indicator', 'words', 'breaks', 'odd', 'spaces', 'indented', 'longwords', 'mixed', 'tiny', 'tabs',
-           'multiline', 'trailing', 'leading_break']
+           'multiline', 'trailing', 'leading_break', 'pyspace', 'long_lookalike', 'wide_run']
+
+
+def long_lookalike(r):
+    """text of another type's form that is longer than any small cut-off (128, 256, 1024)"""
+    n = r.choice([100, 127, 128, 129, 130, 200, 255, 256, 257, 400, 590])
+    form = r.randrange(12)
+    if form == 0:
+        s = r.choice('123456789') + ''.join(r.choice('0123456789') for _ in range(n))
+    elif form == 1:
+        s = '0x' + ''.join(r.choice('0123456789abcdefABCDEF') for _ in range(n))
+    elif form == 2:
+        s = '0b' + ''.join(r.choice('01') for _ in range(n))
+    elif form == 3:
+        s = '1' + '_1' * (n // 2)
+    elif form == 4:
+        s = r.choice('123456789') + '0' * n + '.5'
+    elif form == 5:
+        s = '1:' + ':'.join(r.choice(['30', '5', '59', '00']) for _ in range(n // 3))
+    elif form == 6:
+        s = '0' + ''.join(r.choice('01234567') for _ in range(n))
+    elif form == 7:
+        s = '1.' + '0' * n + 'e+3'
+    elif form == 8:
+        s = '.' + '5' * n
+    elif form == 9:
+        s = '2001-01-01 10:00:00.' + '1' * n
+    elif form == 10:
+        s = r.choice(['-', '+']) + '7' * n
+    else:
+        s = '1' * n + r.choice([' ', 'x', ':', ' #', '_', '.'])       # (no trailing line break: not a text a plain scalar can have)
+    return s
 
 
 def gen(r, cls=None, surrogates=False):
@@ -61,6 +95,21 @@ def gen(r, cls=None, surrogates=False):
         s = r.choice(WORDS) + r.choice([' ', '  ', '\n', '\n\n', ' \n', '\n ', '\t', NEL, LS, '\r', '\r\n', '\n\r'])
     elif cls == 'leading_break':
         s = r.choice(['\n', '\n\n', ' \n', '\r\n', NEL, '\n ']) + ' '.join(r.choice(WORDS) for _ in range(r.randint(1, 5)))
+    elif cls == 'pyspace':
+        lines = []
+        for _ in range(r.randint(1, 5)):
+            lead = r.choice(['', '', r.choice(PYSPACE), r.choice(PYSPACE) * 2, ' ' + r.choice(PYSPACE)])
+            trail = r.choice(['', '', r.choice(PYSPACE)])
+            lines.append(lead + ' '.join(r.choice(WORDS) for _ in range(r.randint(0, 8))) + trail)
+        s = r.choice(['\n', '\n', '\n\n']).join(lines) + r.choice(['', '\n'])
+    elif cls == 'long_lookalike':
+        s = long_lookalike(r)
+    elif cls == 'wide_run':
+        # runs of characters whose written (escaped or doubled) form is much wider than the character
+        ch = r.choice([chr(0x1F600), chr(0x10000), chr(0x10ffff), chr(0xe9), chr(0x4e2d), '\x07', '\x01', "'", '"', '\\', chr(0xfffe), NEL])
+        s = ch * r.choice([60, 100, 103, 110, 122, 123, 127, 128, 129, 171, 172, 200, 256, 300, 520])
+        if r.random() < 0.3:
+            s = r.choice(['a', 'a b ', '- ']) + s
     else:   # mixed
         parts = []
         for _ in range(r.randint(1, 6)):
@@ -80,4 +129,6 @@ def key_string(r):
         return r.choice(LOOKALIKES)
     if c < 0.8:
         return 'k' * r.choice([1, 100, 127, 128, 129, 200, 1023, 1024, 1025, 1100])
+    if c < 0.86:
+        return gen(r, r.choice(['wide_run', 'long_lookalike', 'pyspace']))[0]
     return gen(r, r.choice(['tiny', 'indicator', 'odd', 'breaks', 'words']))[0]
